@@ -185,6 +185,9 @@ def cli_spellings(rng, u, root, sd, pd, safe=False, mapping=None, marks=None):
         flat = u.replace("/", "_")
         for key in rng.sample(["C:/obj/dist/include/" + flat, "gen/obj/" + flat, "Build/" + flat, "z:/w/" + flat], rng.randrange(1, 3)):
             mapping[key] = (pd + "/" + u) if (pd and rng.random() < 0.6) else u
+            if "/" in u and rng.random() < 0.3:
+                # a mapping written on Windows (no '.' / '..' in it): reported as the same file, with '/'
+                mapping[key] = u.replace("/", "\\")
             rec = rng.choice([flip_first(key), flip_first(key), key])
             if rng.random() < 0.25:
                 rec = rec.replace("/", "\\")                      # the record's backslashes become '/' before the lookup
@@ -446,6 +449,7 @@ def cli_stream(chk, n):
         dist["records_with_respelt_prefix"] += sum(1 for (k, _), m in zip(recs, marks) if m == "inside-prefix")
         dist["records_under_a_locally_existing_prefix"] += sum(1 for (k, _), m in zip(recs, marks) if m in ("prefix", "inside-prefix") and pd_kind not in (None, "absent"))
         dist["mapped_values_starting_with_prefix"] += sum(1 for v in (mapping or {}).values() if pd and v.startswith(pd + "/"))
+        dist["mapped_values_with_backslashes"] += sum(1 for v in (mapping or {}).values() if "\\" in v)
         if pd_kind:
             dist["prefix_" + pd_kind] += 1
         outs = {}
@@ -560,7 +564,7 @@ def run(chk):
                        "--path-mapping keys spelt exactly or with the other case of their first letter (key upper / record lower and the converse, also with backslashes)), "
                        "files present on disk or not, with and without -s / -p / --path-mapping / --branch; -p is a build-machine prefix absent from this machine or one that "
                        "exists here (through a symlink, relative to the working directory, with './' or '..'); mapping values are the repository path or the "
-                       "build-machine path <prefix>/<path> (mapped first, then the prefix is removed); in half of the cases 2-3 spellings of one file that stay "
+                       "build-machine path <prefix>/<path> (mapped first, then the prefix is removed), or the repository path written with backslashes; in half of the cases 2-3 spellings of one file that stay "
                        "distinct map keys carry the very same record (the aggregate then has k times the counts); "
                        "every input is identifiable by a key line, a function id<i> or a branch line, about a quarter of the inputs carry no DA line at all "
                        "(function-only, branch-only); reports -t lcov, files, covdir and, in about half of the cases, --filter covered and --filter uncovered "
